@@ -70,6 +70,14 @@ STRENGTHENED.update({
  'C16-r6': 'missed at first (the struct setters ZSTD_CCtx_setCParams / setFParams / setParams were not in the operation alphabet). Added operation structSetter to c16-grid: valid struct with the opposite frame flags and the parameter under test replaced by lo / hi / lo-1 / hi+1; refused => nothing changed, accepted => every member reads back.',
 })
 
+STRENGTHENED.update({
+ 'C01-r7': 'the same change as the round-1 C15 seed (cycle log from hashLog), given here for C01: it needs index rebasing, which C01\'s builds never reach; caught by C15 (frequent-correction build), as in round 1.',
+ 'C05-r7': 'widened before the first run (a miss was predicted from reading the patch: no block of the family was "almost a run"). Added block character 10 to the block-type family of C01 / C05: a run with three stray bytes whose bits are subsets of those of the run byte, away from the block start.',
+ 'C10-r7': 'widened before the first run (predicted miss: every walk started from a fresh or fully drained context). The hint-following walk of c10-dstream / c02-dstream now also starts after another frame was decoded with every input byte given and one byte of output room per call (3 calls / until the input is used up) and abandoned by ZSTD_initDStream.',
+ 'C18-r7': 'widened before the first run (predicted miss: corpora of a few KB never fill the legacy trainer\'s 10 000-entry segment table). Added unit c18-manyseg: 14 000 distinct repeated 20-byte words (2.7 MB corpus) through trainFromBuffer_legacy and trainFromBuffer.',
+ 'C19-r7': 'widened before the first run (predicted miss: the mixed multi-file scenarios had the damaged file last). Added scenarios with the truncated / corrupted file first.',
+})
+
 def main():
     rows = collections.defaultdict(list)
     p = os.path.join(V, 'build/seedmatrix.tsv')
